@@ -359,6 +359,13 @@ func crashMain(a []string) {
 			resImg := map[string]interface{}{"kind": "image", "k": e.K, "variant": vi, "cut": cut, "ev": e.Ev, "op": e.OpIdx}
 			if opts["dumpfiles"] == "1" {
 				resImg["files"] = dumpFiles(work)
+				dirs := []string{}
+				for _, d := range []string{"d", "d-merge"} {
+					if st, err := os.Stat(filepath.Join(work, d)); err == nil && st.IsDir() {
+						dirs = append(dirs, d)
+					}
+				}
+				resImg["dirs"] = dirs
 			}
 			s2 := newSession(work)
 			r1 := s2.exec("open d " + readerCfg)
